@@ -20,6 +20,7 @@ type CExpr struct {
 	X, Y, Z *CExpr   // operands: bin X op Y ; index X[Y]; slice X[Y:Z]; field X.Name; un Op X
 	Args []*CExpr    // call args
 	Vars []string    // quantifier variables
+	Expand bool      // forallx / existsx: a bounded quantifier that must be expanded into a finite conjunction
 	Pos  string
 }
 
@@ -172,7 +173,7 @@ func ParseCExpr(src, pos string) (*CExpr, error) {
 // top: quantifier | iff
 func (p *cparser) parseTop() (*CExpr, error) {
 	t := p.peek()
-	if t.k == "id" && (t.s == "forall" || t.s == "exists") {
+	if t.k == "id" && (t.s == "forall" || t.s == "exists" || t.s == "forallx") {
 		p.next()
 		var vars []string
 		for {
@@ -202,6 +203,9 @@ func (p *cparser) parseTop() (*CExpr, error) {
 		body, err := p.parseTop()
 		if err != nil {
 			return nil, err
+		}
+		if t.s == "forallx" {
+			return &CExpr{Kind: "forall", Vars: vars, X: body, Pos: p.pos, Expand: true}, nil
 		}
 		return &CExpr{Kind: t.s, Vars: vars, X: body, Pos: p.pos}, nil
 	}
@@ -234,7 +238,7 @@ func (p *cparser) parseImp() (*CExpr, error) {
 		// right associative; the consequent may itself be a quantifier
 		var r *CExpr
 		t := p.peek()
-		if t.k == "id" && (t.s == "forall" || t.s == "exists") {
+		if t.k == "id" && (t.s == "forall" || t.s == "exists" || t.s == "forallx") {
 			r, err = p.parseTop()
 		} else {
 			r, err = p.parseImp()
@@ -272,7 +276,7 @@ func (p *cparser) parseAnd() (*CExpr, error) {
 		p.next()
 		var r *CExpr
 		t := p.peek()
-		if t.k == "id" && (t.s == "forall" || t.s == "exists") {
+		if t.k == "id" && (t.s == "forall" || t.s == "exists" || t.s == "forallx") {
 			r, err = p.parseTop()
 		} else {
 			r, err = p.parseCmp()
@@ -443,7 +447,7 @@ func (p *cparser) parsePrimary() (*CExpr, error) {
 	case "str":
 		return &CExpr{Kind: "str", Str: t.s, Pos: p.pos}, nil
 	case "id":
-		if t.s == "forall" || t.s == "exists" {
+		if t.s == "forall" || t.s == "exists" || t.s == "forallx" {
 			p.p--
 			return p.parseTop()
 		}
